@@ -961,6 +961,124 @@ theorem exprBody_chain {b : List String} {rec : Nat → P Expr} {bound : Nat} (h
         simp only [chainKV, List.cons_append] at hts3
         exact infixes_stop (by simpa [opKV] using hts3) (Or.inr (Or.inr (Or.inr ⟨rfl, by decide⟩)))
 
+theorem chain_some (b : List String) : ∀ (e e' : SExpr), (chain b e).2 = some e' → e.WF →
+    e'.WF ∧ e'.kv.length < e.kv.length
+  | .one t, e', h, _ => by simp [chain] at h
+  | .cons t true rest, e', h, hwf => by
+    simp only [chain, Option.some.injEq] at h
+    subst h
+    simp only [SExpr.WF] at hwf
+    exact ⟨hwf.2, by simp [SExpr.kv]⟩
+  | .cons t false rest, e', h, hwf => by
+    simp only [chain] at h
+    simp only [SExpr.WF] at hwf
+    have := chain_some b rest e' h hwf.2
+    exact ⟨this.1, by simp only [SExpr.kv, List.length_append]; omega⟩
+
+theorem groups_mkSeq_not_choice (b : List String) (e : SExpr) :
+    ∀ y ∈ (e.groups b).map mkSeq, ∀ es, y ≠ .choice es := by
+  intro y hy es
+  obtain ⟨g, hg, rfl⟩ := List.mem_map.mp hy
+  have := groups_elems b e g hg
+  exact mkSeq_not_choice g this.1 this.2 es
+
+theorem exprBody_skip_bar {b : List String} {rec : Nat → P Expr} {p : Nat} {eof t0 t1 : Token}
+    {ts : List Token} (h0 : t0.kind = .choiceOp) (h1 : t1.kind ≠ .choiceOp) :
+    exprBody b rec p eof (t0 :: t1 :: ts) = exprBody b rec p eof (t1 :: ts) := by
+  rw [exprBody_eq]
+  simp only [bind_eq, termPart_skip_bar h0 h1]
+
+/-- `parse_expression(p)` for `p` = LOWEST or CHOICE: the whole expression -/
+theorem exprBody_full0 {b : List String} {rec : Nat → P Expr} {bound : Nat} (hrec : RecOK b rec bound)
+    (p : Nat) (hp : p = PRECEDENCE_LOWEST ∨ p = PRECEDENCE_CHOICE) (e : SExpr) (hwf : e.WF)
+    (hlen : e.kv.length ≤ bound) (eof : Token) (ts : List Token) (K : List KV)
+    (h : tokKV ts = e.kv ++ K) (hK : Closer K) :
+    ∃ ts', exprBody b rec p eof ts = .ok (e.den b) ts' ∧ tokKV ts' = K := by
+  have hp2 : p ≤ PRECEDENCE_CHOICE := by rcases hp with rfl | rfl <;> decide
+  have hp3 : p ≤ PRECEDENCE_SEQUENCE := by rcases hp with rfl | rfl <;> decide
+  have stop : ∀ {n : Nat} {left : Expr} {ts0 : List Token}, tokKV ts0 = K →
+      infixes rec p (n + 1) left eof ts0 = .ok left ts0 := by
+    intro n left ts0 h0
+    obtain ⟨k, v, K', rfl, hk⟩ := hK
+    apply infixes_stop h0
+    rcases hk with rfl | rfl
+    · exact Or.inl rfl
+    · exact Or.inr (Or.inl rfl)
+  have Kpos : ∀ {ts0 : List Token} {X : List KV}, tokKV ts0 = X ++ K → ∃ m, ts0.length = m + 1 := by
+    intro ts0 X h0
+    have := congrArg List.length h0
+    obtain ⟨k, v, K', rfl, -⟩ := hK
+    simp only [tokKV_length, List.length_append, List.length_cons] at this
+    exact ⟨ts0.length - 1, by omega⟩
+  rw [exprBody_eq]
+  cases e with
+  | one t =>
+    simp only [SExpr.kv, SExpr.WF] at h hlen hwf
+    obtain ⟨ts1, h1, hts1⟩ := termPart_term hrec t hwf hlen eof ts K h hK.termEnd
+    refine ⟨ts1, ?_, hts1⟩
+    simp only [bind_eq, h1, SExpr.den, SExpr.groups, List.map_cons, List.map_nil, mkSeq, mkChoice]
+    exact stop hts1
+  | cons t bar rest =>
+    simp only [SExpr.kv, SExpr.WF, List.append_assoc, List.cons_append, List.nil_append] at h hlen hwf
+    have hlen_t : t.kv.length ≤ bound := by simp only [List.length_append] at hlen; omega
+    have hlen_r : rest.kv.length < bound := by
+      simp only [List.length_append, List.length_cons] at hlen; omega
+    have hend : TermEnd (opKV bar :: (rest.kv ++ K)) :=
+      ⟨(opKV bar).1, (opKV bar).2, rest.kv ++ K, rfl, by cases bar <;> simp [opKV]⟩
+    obtain ⟨ts1, h1, hts1⟩ := termPart_term hrec t hwf.1 hlen_t eof ts _ h hend
+    obtain ⟨t1, ts2, rfl, hk1, -, hts2⟩ := tokKV_cons_inv hts1
+    obtain ⟨m, hm⟩ := Kpos hts2
+    cases bar with
+    | true =>
+      have hk1' : t1.kind = .choiceOp := by simpa [opKV] using hk1
+      obtain ⟨ts3, h3, hts3⟩ := hrec.full PRECEDENCE_CHOICE (Or.inr rfl) false rest hwf.2
+        (by simpa [barKV] using hlen_r) eof ts2 K (by simpa [barKV] using hts2) hK
+      refine ⟨ts3, ?_, hts3⟩
+      simp only [bind_eq, h1, List.length_cons, hm]
+      rw [infixes_choice hk1' hp2]
+      simp only [h3, SExpr.den]
+      rw [joinChoice_mkChoice _ _ (by simpa using groups_ne_nil b rest) (groups_mkSeq_not_choice b rest)]
+      simp only [SExpr.groups, List.map_cons, mkSeq]
+      exact stop hts3
+    | false =>
+      have hk1' : t1.kind = .sequenceOp := by simpa [opKV] using hk1
+      obtain ⟨ts3, h3, hts3⟩ := hrec.chain rest hwf.2 hlen_r eof ts2 K hts2 hK
+      simp only [bind_eq, h1, List.length_cons, hm]
+      rw [infixes_seq hk1' hp3]
+      simp only [h3]
+      rw [joinSeq_mkSeq _ _ (chain_ne_nil b rest) (chain_termDen b rest)]
+      have hg := groups_chain b rest
+      cases hc : (chain b rest).2 with
+      | none =>
+        rw [hc] at hts3 hg
+        simp only [chainKV, List.nil_append] at hts3
+        refine ⟨ts3, ?_, hts3⟩
+        simp only [SExpr.den, SExpr.groups, hg, consGroup, List.map_cons, List.map_nil, mkChoice]
+        exact stop hts3
+      | some e' =>
+        rw [hc] at hts3 hg
+        simp only [chainKV, List.cons_append] at hts3
+        obtain ⟨t4, ts4, rfl, hk4, -, hts4⟩ := tokKV_cons_inv hts3
+        have hk4' : t4.kind = .choiceOp := by simpa [opKV] using hk4
+        obtain ⟨hwf', hlt'⟩ := chain_some b rest e' hc hwf.2
+        obtain ⟨ts5, h5, hts5⟩ := hrec.full PRECEDENCE_CHOICE (Or.inr rfl) false e' hwf'
+          (by simp only [barKV, List.nil_append]; omega) eof ts4 K (by simpa [barKV] using hts4) hK
+        refine ⟨ts5, ?_, hts5⟩
+        rw [infixes_choice hk4' hp2]
+        simp only [h5, SExpr.den]
+        rw [joinChoice_mkChoice _ _ (by simpa using groups_ne_nil b e') (groups_mkSeq_not_choice b e')]
+        simp only [SExpr.groups, hg, consGroup, List.map_cons]
+        obtain ⟨m', hm'⟩ : ∃ m', m = m' + 1 := by
+          have h4 := congrArg List.length hts4
+          have h2 := congrArg List.length hts2
+          have : ts4.length < ts2.length := by
+            have hsuf := congrArg List.length hts3
+            simp only [tokKV_length, List.length_cons, List.length_append] at hsuf h4 h2
+            omega
+          exact ⟨m - 1, by omega⟩
+        subst hm'
+        exact stop hts5
+
 end PRT
 end Front
 end Pest
